@@ -71,6 +71,7 @@ CHECKS["C01"] = {
     "technique": "property-based testing (rapid) with a reference framing model + bounded-exhaustive near-miss header enumeration",
     "nontrivial_floor": 500,
     "units": [
+        {"name": "continue-declined", "run": "^TestC01ContinueDeclined$", "kind": "rapid", "checks": {"quick": 3000, "thorough": 60000}, "shards": {"quick": 2, "thorough": 8}},
         {"name": "regress", "run": "^TestC01Regress$", "kind": "plain"},
         {"name": "hostile-near-miss", "run": "^TestC01HostileNearMiss$", "kind": "plain", "shards": 8},
         {"name": "streams", "run": "^TestC01Streams$", "kind": "rapid", "checks": {"quick": 12000, "thorough": 400000}, "shards": {"quick": 8, "thorough": 16}},
